@@ -431,12 +431,15 @@ class Run:
         heap = self.heap
         m = self.model
         reach = self.reachable()
+        # a block that a reachable tensor points to as well (an operation that returned its argument,
+        # or a second wrapper around the same arrays, would be legal) is not dead
+        shared = {bid for lid in reach for _, bid in m.logical[lid]["blocks"]}
         for lid, lg in m.logical.items():
             if lid in reach or lg.get("checked_dead"):
                 continue
             for role, bid in lg["blocks"]:
                 b = heap.by_id.get(bid) if bid is not None else None
-                if b is not None and b.state == "live":
+                if b is not None and b.state == "live" and bid not in shared:
                     self.viol(("C13",), "not_freed_after_last_reference", at, role, lg["origin"])
             lg["checked_dead"] = True
 
@@ -590,12 +593,23 @@ class Run:
         th.sim_call = f"op{i}"
         self.op_kernel[f"op{i}"] = (kind, o.get("kernel"), o.get("operator"))
         tid = getattr(th, "sim_id", -1)
-        touched = set()
-        for nm in [o.get("src"), o.get("a"), o.get("b"), o.get("name")] + [
+        # every name the operation uses is resolved HERE, atomically (no yield point in harness code),
+        # and the objects are held for the whole step: "reachable because an operation in flight holds
+        # it" is then literally true.  (Resolving a name later, after a pre-emption, let another thread
+        # rebind it in between: the model then kept a tensor reachable that nobody referenced any more
+        # - a false freed_while_reachable found by vp check, VERIF_SEED=1.)
+        held = {}
+        for nm in [o.get("src"), o.get("a"), o.get("b")] + [
                 sv.get("name") for sv in (o.get("srcs") or {}).values()]:
             if nm is not None and nm in m.names:
-                touched.add(m.names[nm][1])
-        self.inflight[tid] = touched
+                held[nm] = m.names[nm]
+        self.inflight[tid] = {lid for _, lid in held.values()}
+
+        def tensor_of(nm):
+            ent = held.get(nm)
+            if ent is None or not isinstance(ent[0], Tensor):
+                return None
+            return ent[0]
         try:
             if kind == "eval":
                 a, of, params, od, be = KERNELS[o["kernel"]]
@@ -604,13 +618,13 @@ class Run:
                 for p, d, f in params:
                     s = o["srcs"][p]
                     if "name" in s:
-                        t = self.tensor_of(s["name"])
+                        t = tensor_of(s["name"])
                         if t is None or t.dimensions != tuple(d) or t.format.deparse() != f:
                             t = None
                         if t is None:
                             ok = False
                             break
-                        if m.logical[m.names[s["name"]][1]]["blocks"]:
+                        if m.logical[held[s["name"]][1]]["blocks"]:
                             self.probe("kernel_output_used_as_input")
                         kw[p] = t
                     else:
@@ -619,7 +633,7 @@ class Run:
                     outcome = "stale_source"
                 else:
                     used_output = any(
-                        "name" in o["srcs"][p] and m.logical[m.names[o["srcs"][p]["name"]][1]]["blocks"]
+                        "name" in o["srcs"][p] and m.logical[held[o["srcs"][p]["name"]][1]]["blocks"]
                         for p, _, _ in params)
                     try:
                         r = self.traced(lambda: _evaluate(a, of, be, kw), targets)
@@ -641,8 +655,8 @@ class Run:
                         del r
                 del kw
             elif kind == "op":
-                a = self.tensor_of(o["a"])
-                b = self.tensor_of(o.get("b")) if "b" in o else None
+                a = tensor_of(o["a"])
+                b = tensor_of(o.get("b")) if "b" in o else None
                 if a is None or ("b" in o and b is None):
                     outcome = "stale_source"
                 else:
@@ -663,21 +677,21 @@ class Run:
                         del r
                 del a, b
             elif kind == "alias":
-                ent = m.names.get(o["src"])
+                ent = held.get(o["src"])
                 if ent is None:
                     outcome = "stale_source"
                 else:
                     m.names[o["dst"]] = ent
                 del ent
             elif kind == "alias_struct":
-                t = self.tensor_of(o["src"])
+                t = tensor_of(o["src"])
                 if t is None:
                     outcome = "stale_source"
                 else:
-                    m.names[o["dst"]] = (t.cffi_tensor, m.names[o["src"]][1])
+                    m.names[o["dst"]] = (t.cffi_tensor, held[o["src"]][1])
                 del t
             elif kind == "read":
-                ent = m.names.get(o["src"])
+                ent = held.get(o["src"])
                 if ent is None:
                     outcome = "stale_source"
                 else:
@@ -698,11 +712,11 @@ class Run:
                     del c
                 del ent
             elif kind == "pickle":
-                t = self.tensor_of(o["src"])
+                t = tensor_of(o["src"])
                 if t is None:
                     outcome = "stale_source"
                 else:
-                    from_kernel = bool(m.logical[m.names[o["src"]][1]]["blocks"])
+                    from_kernel = bool(m.logical[held[o["src"]][1]]["blocks"])
                     try:
                         r = self.traced(lambda: pickle.loads(pickle.dumps(t)), targets)
                     except Exception as e:
@@ -720,13 +734,13 @@ class Run:
                         del r
                 del t
             elif kind == "to_format":
-                t = self.tensor_of(o["src"])
+                t = tensor_of(o["src"])
                 if t is None:
                     outcome = "stale_source"
                 else:
                     fmts = TO_FORMATS.get(t.order, ["d" * t.order])
                     f = fmts[o["pick"] % len(fmts)]
-                    from_kernel = bool(m.logical[m.names[o["src"]][1]]["blocks"])
+                    from_kernel = bool(m.logical[held[o["src"]][1]]["blocks"])
                     try:
                         r = self.traced(lambda: t.to_format(f), targets)
                     except Exception as e:
@@ -740,8 +754,8 @@ class Run:
                         del r
                 del t
             elif kind == "eq":
-                a = self.tensor_of(o["a"])
-                b = self.tensor_of(o["b"])
+                a = tensor_of(o["a"])
+                b = tensor_of(o["b"])
                 if a is None or b is None:
                     outcome = "stale_source"
                 else:
@@ -752,7 +766,7 @@ class Run:
                         del e
                 del a, b
             elif kind == "refused":
-                t = self.tensor_of(o["src"])
+                t = tensor_of(o["src"])
                 a, of, params, od, be = KERNELS[o["kernel"]]
                 kw = {p: self.fresh({"dims": list(d), "fmt": f, "entries": []}) for p, d, f in params}
                 p0, d0, f0 = params[0]
@@ -806,11 +820,13 @@ class Run:
             if not self.threaded:
                 sys.settrace(None)
             th.sim_call = None
+            held.clear()
             self.inflight[tid] = set()
             raise
         if not self.threaded:
             sys.settrace(None)
         th.sim_call = None
+        held.clear()
         self.inflight[tid] = set()
         # struct alias that outlives its Tensor?
         for n, (obj, lid) in m.names.items():
